@@ -7,7 +7,7 @@
 EXTENDS FxJudge, FxContractT, FxContractF, FxLaws, FxContractX
 
 LMT == INSTANCE FxLowT WITH Mach <- TRUE
-FidelityAll(e) == LMT!Fid(e)
+FidelityAll(ab, e) == LMT!Fid(ab, e)
 
 EventT(j) == Event(j)
 
@@ -30,8 +30,9 @@ JudgeAll(p, pv, e) ==
 (* ---- laws over recorded programs (C17) ---- *)
 (* pr: the begin line of the program [prog, id, regs, f, n]; hist: recorded instructions [op, t, d, s, a, o] *)
 LawApplies(p, pr) == p = "C17" /\ pr.prog \in LawNames
-LawN(pr) == Dec("i64", pr.n)
-LawTail(pr) == LawTailOf(pr.prog, pr.regs[1], pr.regs[2], pr.regs[3], pr.f, LawN(pr))
+LawTag(pr) == IF "tag" \in DOMAIN pr THEN pr.tag ELSE "i64"
+LawN(pr) == Dec(LawTag(pr), pr.n)
+LawTail(pr) == LawTailOf(pr.prog, pr.regs[1], pr.regs[2], pr.regs[3], pr.f, LawN(pr), LawTag(pr))
 TailOf(pr, hist) == LET k == Len(LawTail(pr)) IN SubSeq(hist, Len(hist) - k + 1, Len(hist))
 LawShape(pr, hist) ==
    LET T == LawTail(pr)  k == Len(T) IN
